@@ -477,6 +477,9 @@ def session(job) -> List[Dict[str, Any]]:
         # interrupt): the document must still be completed
         ex = RuntimeError('caller failed') if ctx == 'exception' else KeyboardInterrupt()
         call('close', lambda: wr.__exit__(type(ex), ex, None))
+    if misuse:                       # write after close: must raise, emit nothing
+        kw, rec = gen(r)
+        call('write', lambda: wr.write(**kw), rec)
     text = ''.join(all_chunks)
     doc: Dict[str, Any] = {'tid': tid, 'ev': 'doc', 'json_ok': False, 'schema_ok': False,
                            'nitems': -1}
